@@ -67,7 +67,8 @@ def gen_program(rng):
 
 
 ARGVS = [[], ["a"], ["a", "b", "c"], ["with space", "tab\there"], [""], ["", "x", ""], ["é", "日本", "\U0001F496"], ["--", "-x", "--flag"], ["--", "-s"],
-         ["--", "-c", "text"], ["1", "2.5", "true"], ["a" * 300], ["--", "--"], ["*", "$HOME", "`x`", "\\n"], ["=", "a=b"]]
+         ["--", "-c", "text"], ["1", "2.5", "true"], ["a" * 300], ["--", "--"], ["*", "$HOME", "`x`", "\\n"], ["=", "a=b"],
+         ["out ", " ", "tab\t", " lead", "mid dle ", "\t", "trail  ", "cr\r", "nl\n"], ["x ", "--", "-y "], ["a\u00a0", "\u3000"]]
 
 
 def expect_argv(args, script_path, cmd_mode):
@@ -150,7 +151,7 @@ def run(chk):
             f.write("puts(argv);\n")
         for k, args in enumerate(ARGVS * (1 if quick else 3)):
             if k >= len(ARGVS):
-                args = [rng.choice(["x", "é", "a b", "", "-", "0"]) for _ in range(rng.randint(0, 6))]
+                args = [rng.choice(["x", "é", "a b", "", "-", "0", "t ", " ", "e\t", " s"]) for _ in range(rng.randint(0, 6))]
                 if any(a.startswith("-") for a in args):
                     args = ["--"] + args
             for rel in (False, True):
